@@ -107,6 +107,33 @@ def _expected_so(tree):
     return out
 
 
+def _scale_return(path, funcname, factor):
+    """edit a source file: multiply the value returned by `funcname` by `factor` (located with ast, no text patterns)"""
+    import ast
+    with open(path) as f:
+        src = f.read()
+    tree = ast.parse(src)
+    fn = next((n for n in ast.walk(tree) if isinstance(n, ast.FunctionDef) and n.name == funcname), None)
+    rets = [n for n in ast.walk(fn) if isinstance(n, ast.Return) and n.value is not None] if fn else []
+    if not rets:
+        return False
+    lines = src.splitlines(True)
+    for r in sorted(rets, key=lambda n: -n.lineno):
+        v = r.value
+        expr = ast.get_source_segment(src, v)
+        if expr is None:
+            return False
+        head = lines[v.lineno - 1][:v.col_offset]
+        tail = lines[v.end_lineno - 1][v.end_col_offset:]
+        lines[v.lineno - 1:v.end_lineno] = [head + "%r * (%s)" % (factor, " ".join(expr.replace("\\\n", " ").split())) + tail]
+    with open(path, "w") as f:
+        f.write("".join(lines))
+    return True
+
+
+INCR_EDITS = [("pygyro/initialisation/initialiser_funcs.py", "f_eq", 1.000001)]
+
+
 def prepare(tier, seed):
     _remove_stale()
     base = tempfile.mkdtemp(prefix="c19run_%d_" % os.getpid())
@@ -150,6 +177,28 @@ def prepare(tier, seed):
             status["builds"][name] = {"tree": tree, "lang": lang, "sanitized": san, "ok": ok, "rc": rc, "timed_out": timed_out,
                                       "missing_modules": missing, "so": so, "wall": round(time.time() - t0, 1),
                                       "cmd": " ".join(cmd), "errors": errs[:12], "log_tail": text[-1800:]}
+        # history: build, edit a source another module links statically, documented build again WITHOUT cleaning
+        fb = status["builds"].get("fortran")
+        if tier == "thorough" and fb and fb["ok"]:
+            tree = os.path.join(base, "incr")
+            shutil.copytree(fb["tree"], tree, symlinks=True)            # copy2: time stamps of sources and products are kept
+            time.sleep(1.1)
+            edited = [rel for rel, fn_, fac in INCR_EDITS if _scale_return(os.path.join(tree, rel), fn_, fac)]
+            t0 = time.time()
+            cmd = _build_cmd("fortran", False)
+            with open(os.path.join(base, "incr.build.log"), "w") as log:
+                try:
+                    rc = subprocess.run(cmd, cwd=tree, env=env, stdout=log, stderr=subprocess.STDOUT, stdin=subprocess.DEVNULL, timeout=900).returncode
+                    timed_out = False
+                except subprocess.TimeoutExpired:
+                    rc, timed_out = -9, True
+            with open(os.path.join(base, "incr.build.log"), errors="replace") as f:
+                text = f.read()
+            so = _expected_so(tree)
+            missing = [m for m, f in so.items() if f is None]
+            status["builds"]["incr"] = {"tree": tree, "lang": "fortran", "sanitized": False, "incremental": True, "edited": edited, "ok": rc == 0 and not missing and bool(edited),
+                                        "rc": rc, "timed_out": timed_out, "missing_modules": missing, "so": so, "wall": round(time.time() - t0, 1), "cmd": " ".join(cmd),
+                                        "errors": [ln for ln in text.splitlines() if re.search(r"error|Error|ERROR|\*\*\*", ln) and "UserWarning" not in ln][:12], "log_tail": text[-1800:]}
     except Exception as e:  # noqa: BLE001  (harness trouble: reported as inconclusive by every case)
         import traceback
         status["error"] = "%s: %s\n%s" % (type(e).__name__, e, traceback.format_exc()[-1200:])
@@ -218,6 +267,12 @@ def gen_cases(tier, seed):
             for _ in range(reps):
                 cases.append({"kind": "diff", "lang": lang, "family": fam, "n": K.FAMILIES[fam][col], "seed": rng.randrange(1 << 30),
                               "cost": cost * K.FAMILIES[fam][col]})
+    if tier == "thorough":
+        cases.append({"kind": "build", "build": "incr", "cost": 0.1})
+        for fam in K.FAMILIES_OF_MODULE["accelerated_advection_steps"] + K.FAMILIES_OF_MODULE["initialiser_funcs"]:
+            for _ in range(4):
+                cases.append({"kind": "diff", "lang": "incr", "family": fam, "n": K.FAMILIES[fam][col], "seed": rng.randrange(1 << 30),
+                              "cost": K.FAMILIES[fam][4] * K.FAMILIES[fam][col]})
     for fam, (mod, _g, nq, nt, cost) in K.FAMILIES.items():
         for _ in range(1 if tier == "quick" else 6):
             cases.append({"kind": "san", "family": fam, "n": K.FAMILIES[fam][col], "seed": rng.randrange(1 << 30),
@@ -551,7 +606,9 @@ def _build_case(case):
     b = st["builds"].get(name)
     if b is None:
         return result(INCO, what="build %r was not attempted: %s" % (name, st.get("error")))
-    cls = "build/%s%s" % (b["lang"], "-sanitized" if b["sanitized"] else "")
+    cls = "build/%s%s%s" % (b["lang"], "-sanitized" if b["sanitized"] else "", "-incremental" if b.get("incremental") else "")
+    if b.get("incremental") and not b.get("edited"):
+        return result(SKIP, cls=cls, what="incremental build stage: the function to edit was not found in the sources")
     if b["ok"]:
         ev = {"build_ok": 0 if b["sanitized"] else 1, "sanitized_build_ok": 1 if b["sanitized"] else 0, "extension_modules_built": len(b["so"])}
         return result(HELD, cls=cls, events=ev, extra={"wall": b["wall"]})
